@@ -1,6 +1,6 @@
 (* C11 — pickling a treespec preserves it exactly. *)
-From OptreeModel Require Import Base Tree Flatten Unflatten Pickle.
-From OptreeProofs Require Import PickleProofs.
+From OptreeModel Require Import Base Tree Flatten Unflatten Spec Pickle.
+From OptreeProofs Require Import PickleProofs ValidateProofs.
 
 (* For every treespec flatten produces (any node kinds, custom nodes with entries, either
    none_is_leaf, any namespace, either dict-order mode), loading the pickled state under the same
@@ -8,7 +8,7 @@ From OptreeProofs Require Import PickleProofs.
    path entries, registration, both counters, original keys), none_is_leaf and namespace. Equality,
    hash, repr, paths, accessors, entries, children and unflatten are functions of those fields. *)
 Theorem C11_flatten_pickle_roundtrip :
-  forall c o ls sp, flatten c o = Ok (ls, sp) -> from_pickle (c_reg c) (to_pickle sp) = Ok sp.
+  forall c o ls sp, wf_obj o = true -> flatten c o = Ok (ls, sp) -> from_pickle (c_reg c) (to_pickle sp) = Ok sp.
 Proof. exact flatten_pickle_roundtrip. Qed.
 Print Assumptions C11_flatten_pickle_roundtrip.
 
@@ -16,6 +16,7 @@ Print Assumptions C11_flatten_pickle_roundtrip.
    namespace currently resolves to *)
 Theorem C11_pickle_roundtrip :
   forall regs s, Forall (node_ok regs (sns s)) (trav s) -> sanity s = true ->
+                 validate (snil s) (trav s) = true ->
                  from_pickle regs (to_pickle s) = Ok s.
 Proof. exact pickle_roundtrip. Qed.
 Print Assumptions C11_pickle_roundtrip.
@@ -29,6 +30,29 @@ Theorem C11_unpickle_missing_registration :
     exists e, from_pickle regs (to_pickle s) = Err e.
 Proof. exact unpickle_missing_registration. Qed.
 Print Assumptions C11_unpickle_missing_registration.
+
+(* THE VALIDATION ON LOAD (fix F16). FromPickleable replays the post-order traversal of the loaded array
+   with a stack of (num_leaves, num_nodes).
+   SOUND: every accepted array decodes to a well-formed structured treespec (arity, num_leaves, num_nodes
+   consistent at every node; key lists, entries and original keys as long as the arity) — exactly the
+   condition under which the engine's unchecked index walks stay inside the array (C08_array_children). *)
+Theorem C11_validate_sound :
+  forall nil ns, validate nil ns = true ->
+  exists t, decode ns = Some t /\ wf_stree t = true /\ payload_ok nil t = true.
+Proof. exact validate_decodes. Qed.
+Print Assumptions C11_validate_sound.
+
+(* COMPLETE: the array of every such treespec is accepted ... *)
+Theorem C11_validate_complete :
+  forall nil t, wf_stree t = true -> payload_ok nil t = true -> validate nil (encode t) = true.
+Proof. exact validate_complete. Qed.
+Print Assumptions C11_validate_complete.
+
+(* ... in particular the treespec of every flattened tree: the validation never rejects a valid pickle *)
+Theorem C11_flatten_validates :
+  forall c o ls sp, wf_obj o = true -> flatten c o = Ok (ls, sp) -> validate (snil sp) (trav sp) = true.
+Proof. exact flatten_validates. Qed.
+Print Assumptions C11_flatten_validates.
 
 Example C11_example :
   let r := {| rcls := 0; rns := 1; rid := 1; rpet := 3 |} in
